@@ -7,4 +7,6 @@ INIT PInit
 NEXT PEval
 CHECK_DEADLOCK FALSE
 INVARIANT OrderOK
+INVARIANT PsdOrderOK
 CONSTRAINT PExport
+CONSTRAINT PsdExport
